@@ -339,11 +339,18 @@ def r04_3_moved_stay_wellformed(ctx: Ctx) -> None:
             continue
         n += 1
         inst = f"Projection.commute:Calculation-tag-kept:path{i}"
-        removed = any(
-            s.kind == "stmt" and isinstance(s.node, ast.AugAssign) and isinstance(s.node.op, ast.Sub) and tagname in src(s.node.value)
-            for s in p.steps
-        ) or any(isinstance(b, ast.BinOp) and isinstance(b.op, ast.Sub) and tagname in src(b.right) for s in p.steps if s.kind == "stmt" for b in ast.walk(s.node))
-        uses_self = src(a_first) == "self" or src(a_first) == "Projection(self.columns)"
+        from ..astutil import chains_read, names_read
+
+        reduced_names = set()
+        for s in p.steps:
+            if s.kind != "stmt":
+                continue
+            if isinstance(s.node, ast.AugAssign) and isinstance(s.node.op, ast.Sub) and tagname in src(s.node.value) and isinstance(s.node.target, ast.Name):
+                reduced_names.add(s.node.target.id)
+            elif isinstance(s.node, ast.Assign) and isinstance(s.node.value, ast.BinOp) and isinstance(s.node.value.op, ast.Sub) and tagname in src(s.node.value.right):
+                reduced_names.update(t.id for t in s.node.targets if isinstance(t, ast.Name))
+        removed = bool(reduced_names) and bool(reduced_names & names_read(a_first))
+        uses_self = src(a_first) == "self" or ("self", "columns") in chains_read(a_first)
         if removed and not uses_self:
             run.ok("R04.3", inst)
         else:
